@@ -254,6 +254,32 @@ def explore_shard(acc, shard):
         acc.count("nontrivial")
         acc.outcome("long stream")
         acc.sample(layer, {"label": label, "notes": len(stream)})
+    elif kind == "N":
+        # nested joined holds of one column with plain notes behind the inner tail (the outer hold is still open there)
+        layer = "N nested joined holds and later notes"
+        F = Fraction
+        case = None
+        for outer_t, inner in ((F(4), (F(1), F(2))), (F(5), (F(1), F(3))), (F(4), (F(2), F(3)))):
+            holds = [(F(0), 0, M.HOLD, outer_t, 0, None), (inner[0], 0, M.ROLL, inner[1], 0, 9)]
+            spots = [b for b in (F(1, 2), F(3, 2), F(5, 2), F(7, 2), F(3), F(9, 2)) if b < outer_t and b not in (inner[0], inner[1])]
+            for k in (1, 2):
+                for sel in itertools.combinations(spots, k):
+                    for col in (0, 1):
+                        plain = [(b, col, M.TAP if i % 2 == 0 else M.MINE, 0, None) for i, b in enumerate(sel)]
+                        for mode in N.MODES:
+                            for pol in N.POLICIES:
+                                case = {"kind": "handbuilt", "mode": mode, "policy": pol, "plain": fmt_stream(plain),
+                                        "holds": [[f"{h[0].numerator}/{h[0].denominator}", h[1], h[2], f"{h[3].numerator}/{h[3].denominator}", h[4], h[5]] for h in holds]}
+                                core.guard_cheap(acc, case)
+                                r = eval_handbuilt(plain, holds, mode, pol)
+                                acc.count("evaluations")
+                                if r is not None:
+                                    acc.violation("ungroup_notes on a hand-built grouped sequence", case, r[0], r[1], signature=("handbuilt-nested", r[0][0], r[1][0]))
+                        acc.count("states")
+                        acc.count("transitions")
+                        acc.count("nontrivial")
+        acc.outcome("plain note behind the inner of two nested joined holds")
+        acc.sample(layer, case)
     elif kind == "M":
         # k holds in k columns, open in every possible interleaving: all perfect matchings of the beats 0..2k-1
         # into (head, tail) pairs, the hold with the i-th earliest head in column i (tails are kept in a heap /
@@ -409,6 +435,7 @@ def explore(run):
                 shards.append(("H", c1, i1, j1))
     shards.append(("P3",))
     shards += [("long", i, run.thorough()) for i in range(len(N.long_streams(run.thorough())))]
+    shards.append(("N",))
     for k in (1, 2, 3, 4, 5):
         shards.append(("M", k, 0, 1))
     for part in range(8):
